@@ -199,6 +199,28 @@ def fit_choice_tie(ctx: Ctx, drv: Driver, m: Monitor):
             ctx.disagree(c["caller"] + " (choice of the three fit atoms)", {"residue": str(c["residue"]), "atom": c["name"], "present": c["present"]}, got, want)
 
 
+def third_checks(ctx: Ctx, drv: Driver, m: Monitor):
+    """rebuild_tetrahedral with two hydrogens present: the position taken vs the model's thirdHydrogen (Float), and
+    the theorem third_hydrogen_clear instantiated: one side from the first hydrogen, at least half a side from the second"""
+    recs = getattr(m, "thirds", [])[:80]
+    out = []
+    ans = drv.ask([f"rigid.third\t{encv(t['next'])}\t{encv(t['bond'])}\t{encv(t['h0'])}\t{encv(t['h1'])}" for t in recs])
+    for t, a in zip(recs, ans):
+        ctx.evaluations += 1
+        model = decv(a)
+        side = None
+        # the two candidates: the model's answer for a far-away and for an on-top second hydrogen are not needed;
+        # measure the side as the distance new - h0
+        side = dist(t["new"], t["h0"])
+        off = min(abs(dist(t["h1"], t["h0"]) - side), 9.0)
+        ctx.count("third-hydrogen", "second hydrogen on a slot" if off < 0.02 else "second hydrogen off its slot")
+        if dist(model, t["new"]) > 1e-6:
+            ctx.disagree("Amino.rebuild_tetrahedral (position of the third hydrogen)", {"next": t["next"], "bond": t["bond"], "h0": t["h0"], "h1": t["h1"]}, model, t["new"])
+        if dist(t["new"], t["h1"]) < side / 2 - 1e-6:
+            out.append(({"kind": "third-hydrogen-on-an-existing-one"}, f"{t['residue']} {t['name']}: placed {dist(t['new'], t['h1']):.3f} A from the second hydrogen of its group; the free position is {side:.3f} A from the first and at least {side / 2:.3f} A from the second"))
+    return out
+
+
 def mfit_coords(c, m, ua):
     """coordinates `ua` had when it served as a fit atom of creation record `c` (None if it did not)"""
     cur = tuple(ua.coords)
@@ -292,7 +314,12 @@ def final_checks(ctx: Ctx, m: Monitor, bio):
                         distort = max(distort, abs(angle(hv[i][1], pa.coords, hv[j][1]) - angle(hv[i][2], ref.map[p].coords, hv[j][2])))
                 for w in ws:
                     dev = abs(angle(a.coords, pa.coords, res.get_atom(w).coords) - angle(ref.map[a.name].coords, ref.map[p].coords, ref.map[w].coords))
-                    if dev > distort + 20.0:
+                    # against an INPUT hydrogen of the same group that is off its ideal position the angle of the new
+                    # hydrogen is off by up to 1.7 times what that hydrogen's own angles are off (turning one member of
+                    # an XH3 group about the bond by d degrees: 53 vs 32 degrees at d = 60): twice the distortion there
+                    wa = res.get_atom(w)
+                    allow = (2.0 * distort if (w.startswith("H") and not wa.added) else distort) + 20.0
+                    if dev > allow:
                         out.append(({"kind": "angle", "residue": res.name, "pos": pos, "atom": a.name}, f"{res} angle {a.name}-{p}-{w} is {dev:.1f} degrees off the template (distortion of the input around {p}: {distort:.1f})"))
                         break
                 # groups of three hydrogens are built by 120-degree rotations of one fitted hydrogen:
@@ -394,7 +421,7 @@ def check_case(ctx: Ctx, drv: Driver, text, opts, feats, seen_sig):
     if r.status != "ok":
         return
     fit_choice_tie(ctx, drv, m)
-    found = fit_checks(ctx, drv, m) + tetra_checks(ctx, drv, m) + torsion_checks(ctx, m) + final_checks(ctx, m, r.biomolecule)
+    found = fit_checks(ctx, drv, m) + tetra_checks(ctx, drv, m) + third_checks(ctx, drv, m) + torsion_checks(ctx, m) + final_checks(ctx, m, r.biomolecule)
     ctx.count("oracle", "holds" if not found else found[0][0]["kind"])
     for sig, msg in found:
         k = tuple(sorted(sig.items()))
@@ -431,6 +458,11 @@ def run(ctx: Ctx):
     )
     seen_sig = set()
     nearest_tie(ctx, drv)
+    # inputs that carry two hydrogens of a group of three, one of them off its ideal position (hydrogens that were
+    # not made by pdb2pqr): the third one must go to the free position
+    for ci in range(ctx.scale(12, 300)):
+        text, opts, feats = c04.gen_case(rng, ["ALA", "THR", "MET", "LYS", "VAL", "LEU", "ILE"][ci % 7], kind="partial-h", offslot=True)
+        check_case(ctx, drv, text, opts, feats, seen_sig)
     n = ctx.scale(60, 2500)
     for ci in range(n):
         force = G.AA3[ci % len(G.AA3)] if ci % 2 == 0 else None
